@@ -133,7 +133,6 @@ Proof.
   - unfold wf_open. cbn [o_ver o_asn o_hold o_id o_params]. repeat split; try assumption; lia.
 Qed.
 
-Definition is_pcaps (p : param) : Prop := match p with PCaps _ => True | POther _ _ => False end.
 
 (* readOpen on EVERY byte string the independent decoder accepts as an OPEN
    whose optional parameters are all capabilities, followed by any bytes *)
